@@ -197,6 +197,19 @@ def gen_jobs(ctx):
             jobs.append(('random', case, w, rng.random() < 0.5))
         if rng.random() < 0.5:
             jobs.append(('random-dc', case, None, True))
+    # a sinusoidal source whose own frequency is 0 (the constructor's default) keeps its phase: at w = 0 it contributes A*exp(j*phi)
+    for _ in range(25 if quick else 500):
+        case = circgen.random_circuit(rng)
+        srcs = [c for c in case['components'] if c['kind'] in ('ac_voltage_source', 'ac_current_source')]
+        if not srcs:
+            continue
+        for c in rng.sample(srcs, min(len(srcs), 2)):
+            c['params']['w'] = 0.0
+            if c['params']['phi'] == 0.0:
+                c['params']['phi'] = rng.choice([0.5, -1.0, 2.5])
+        jobs.append(('zero-frequency-sinusoidal-source', case, 0.0, rng.random() < 0.5))
+        jobs.append(('zero-frequency-sinusoidal-source', case, rng.choice([7.0, 5e-4, 1.0]), True))
+        jobs.append(('zero-frequency-sinusoidal-source', case, None, True))
     return jobs
 
 
